@@ -208,6 +208,50 @@ def z_denote(t, env):
     return a**b
 
 
+class _Skip(Exception):
+    pass
+
+
+def nan_oracle(t, env):
+    """exact evaluation for the clause 'division by zero yields NaN': returns 'nan' when a division
+    by exactly zero occurs and only + - * / and negation sit above it, a Fraction when everything is
+    defined, and raises _Skip for anything else (powers, functions of NaN, equations, unbound)"""
+    k = t[0]
+    if k == "I":
+        return Fraction(t[1])
+    if k == "F":
+        return t[1]
+    if k == "V":
+        v = env.get(t[1])
+        if v is None:
+            raise _Skip
+        return Fraction(int(v)) if isinstance(v, int) else Fraction(repr(float(v)))
+    if k == "U":
+        a = nan_oracle(t[2], env)
+        if t[1] == "neg":
+            return a if a == "nan" else -a
+        if a == "nan":
+            raise _Skip
+        if t[1] == "abs":
+            return abs(a)
+        if t[1] == "sgn":
+            return Fraction((a > 0) - (a < 0))
+        raise _Skip
+    a = nan_oracle(t[2], env)
+    b = nan_oracle(t[3], env)
+    if t[1] not in ("add", "sub", "mul", "div"):
+        raise _Skip
+    if a == "nan" or b == "nan":
+        return "nan"
+    if t[1] == "add":
+        return a + b
+    if t[1] == "sub":
+        return a - b
+    if t[1] == "mul":
+        return a * b
+    return "nan" if b == 0 else a / b
+
+
 def z_size(t, env):
     """upper bound (bits) of the integer value; raises OverflowError beyond 400 kbit"""
     k = t[0]
@@ -266,6 +310,10 @@ def c05(ctx):
                 env[v] = rng.randint(-9, 9)
             else:
                 env[v] = rng.choice([0.5, -1.5, 2.25, 0.0, 3.75, 1e3, -0.125])
+                if rng.random() < 0.15:
+                    # values computed with numpy are floats too (numpy.float64 subclasses float)
+                    import numpy as _np
+                    env[v] = _np.float64(env[v])
         cases.append((t, env, "mixed"))
     # equations whose sides differ by very little (relative 1e-10 .. 1e-18) or not at all:
     # "raises when the sides differ" must not depend on a tolerance
@@ -316,6 +364,12 @@ def c05(ctx):
         ops = n_ops(t)
         if ops >= 2:
             nontrivial.add(p_wire(t) + "|" + env_wire(env))
+        try:
+            if nan_oracle(t, env) == "nan" and real != ("nan",):
+                bad.append({"tree": p_str(t), "env": str(env), "real": str(real)[:200],
+                            "problem": "a division by zero did not yield NaN"})
+        except (_Skip, OverflowError, ZeroDivisionError):
+            pass
         if real[0] == "npint" or (real[0] == "exc" and real[1].startswith("internal")):
             bad.append({"tree": p_str(t), "env": str(env), "real": str(real), "problem": "wrapped integer / internal error"})
         if kind in ("int", "probe") and all(isinstance(v, int) for v in env.values()):
